@@ -735,7 +735,9 @@ func (s *Stream) processSingleFieldFallback(fieldSpec string, dataMap map[string
 func (s *Stream) executeFunction(funcExpr string, data map[string]any) (any, error) {
 	// Check if it's a custom function
 	funcName := extractFunctionName(funcExpr)
-	if funcName != "" {
+	// the direct path below takes everything between the first '(' and the last ')' for the argument list, so it
+	// only fits a text that is one call; "power(a, 2) + mod(a, 4)" or "if_null(n, 1) + 1" go to the bridge
+	if funcName != "" && isSingleCall(funcExpr) {
 		// Use function system directly
 		fn, exists := functions.Get(funcName)
 		if exists {
@@ -762,6 +764,35 @@ func (s *Stream) executeFunction(funcExpr string, data map[string]any) (any, err
 	}
 
 	return result, nil
+}
+
+// isSingleCall reports whether expr is exactly one call name(...): the parenthesis that opens after the name is
+// closed by the last character (parentheses inside quotes do not count).
+func isSingleCall(expr string) bool {
+	expr = strings.TrimSpace(expr)
+	depth := 0
+	var quote byte
+	for i := 0; i < len(expr); i++ {
+		c := expr[i]
+		if quote != 0 {
+			if c == quote {
+				quote = 0
+			}
+			continue
+		}
+		switch c {
+		case '\'', '"', '`':
+			quote = c
+		case '(':
+			depth++
+		case ')':
+			depth--
+			if depth == 0 {
+				return i == len(expr)-1
+			}
+		}
+	}
+	return false
 }
 
 // extractFunctionName extracts function name from expression
